@@ -417,6 +417,11 @@ func cmdCheck(args []string) int {
 			case r.Status == "failed" || strings.HasPrefix(r.Status, "panic"):
 				status = "reproduced"
 				replayConfirmed++
+			case c.v.Kind == "format":
+				// engine-level obligation (a computed string in the format position of a printf-style
+				// call): the harness may not assert the resulting text, so a passing native run does
+				// not refute it
+				status = "symbolic-only"
 			default:
 				status = "not-reproduced:" + r.Status
 			}
